@@ -2,7 +2,7 @@
 
 Specification: spec/StmtPolicy.tla part 3 (Skeleton, Rejected), spec/StmtPolicy_blacklist_gen.tla.
 Binding: G.  TLC builds, from 12 base statements given as abstract token sequences, every variant (keyword casing x
-gap style x literal values x one comment of 5 styles at every token gap) and structural mutants (other table, column,
+gap style x literal values x one comment of 6 styles at every token gap) and structural mutants (other table, column,
 operator, extra predicate, dropped WHERE), checks that variants keep and mutants change the skeleton, and prints each
 text (as its sequence of lexical items) with Rejected(text, Blacklist).  The Go harness configures a real Namespace
 with the blacklist TLC printed (parseBlackSqls), concatenates the items and asks SessionExecutor.checkSQLAllowed and
@@ -16,8 +16,8 @@ MANIFEST = {
         "category": "model_checking",
         "text": "TLC enumerates, for 12 base statements (SELECT with =, AND, >, ORDER BY/LIMIT, LIKE, IN list, BETWEEN, JOIN; "
                 "INSERT..VALUES; UPDATE; DELETE; 10 of them blacklisted), every variant in 3 keyword casings x 7 gap styles "
-                "(one/two spaces, tab, LF, CR LF, CR, no space next to operators and punctuation) x 4 literal choices x (no comment or "
-                "one of 5 comment styles at every token gap, leading and trailing), and 5 structural mutants in 8 spellings "
+                "(one/two spaces, tab, LF, CR LF, CR, no space next to operators and punctuation) x 5 literal choices x (no comment or "
+                "one of 6 comment styles (one longer than 256 bytes) at every token gap, leading and trailing), and 5 structural mutants in 8 spellings "
                 "(quick: every variant with at most two non-default dimensions plus a seeded sample); on every text TLC checks "
                 "that variants keep and mutants change Skeleton and that the emitted decision is skeleton membership in the "
                 "blacklist; every text is given to the real checkSQLAllowed / ExecuteCommand of a Namespace configured with "
